@@ -12,6 +12,7 @@ from vmon.ref import framing
 
 BUDGET = {'quick': 60, 'thorough': 1500}
 FRAME_BUDGET = {'quick': 300, 'thorough': 8000}
+REFERENCE_BLOCKS = {'quick': 4, 'thorough': 60}     # per protocol family, 60 reference encodings each
 POSITIVE_N = ('TlsRecord', 'SslRecord', 'TlsHandshakeMessage', 'TlsHandshakeMessageVariant', 'SshRecordBase',
               'SshProtocolMessage', 'MySQLRecord', 'TPKT', 'OpenVpnPacketWrapperTcp', 'LDAPMessageParsableBase',
               'SslRequest', 'Sync')
@@ -48,7 +49,7 @@ class Check(core.CheckBase):
         self.monitor.attach()
         self.framing = {}
         for name, cls in self.classes.items():
-            if name in self.corpus and framing.decoder_for(cls) is not None:
+            if framing.decoder_for(cls) is not None:
                 self.framing[name] = framing.decoder_for(cls)
 
     # ------------------------------------------------------------------ workload
@@ -62,14 +63,37 @@ class Check(core.CheckBase):
                 if self.mine(index):
                     yield {'kind': 'seed', 'cls': name, 'seed_index': seed_index, 'of': len(self.corpus[name])}
         for name in sorted(self.framing):
-            for seed_index in range(len(self.corpus[name])):
+            for seed_index in range(len(self.corpus.get(name, []))):
                 index += 1
                 if self.mine(index):
                     yield {'kind': 'frame-seed', 'cls': name, 'seed_index': seed_index, 'of': len(self.corpus[name])}
 
+        for family in ('tls', 'ssh', 'dns', 'opp'):
+            for block in range(REFERENCE_BLOCKS[self.tier]):
+                index += 1
+                if self.mine(index):
+                    yield {'kind': 'reference', 'cls': family, 'block': block}
+
+    def judge_reference(self, case):
+        """Encodings written by the independent reference encoders for generator-built values (header forms and field
+        combinations the library's own compose never produces), alone and followed by other bytes."""
+        import importlib  # pylint: disable=import-outside-toplevel
+        rng = random.Random('C03/ref/%s/%s/%s' % (self.seed, case['cls'], case['block']))
+        found = []
+        for pair in importlib.import_module('vmon.gen.' + case['cls']).generate(rng, 60):
+            name = inventory.class_name(pair.cls)
+            self.stats['reference_encodings'] += 1
+            found.extend(self.judge_input(name, pair.wire, ('reference', pair.label)))
+            if name in self.framing:
+                tail = bytes(rng.randrange(256) for _ in range(rng.randrange(1, 40))) if rng.random() < 0.5 else pair.wire
+                found.extend(self.judge_input(name, pair.wire + tail, ('reference+suffix', pair.label)))
+        return found
+
     def judge(self, case):
         if case['kind'] == 'input':
             return self.judge_input(case['cls'], bytes.fromhex(case['hex']), ('replay', ))
+        if case['kind'] == 'reference':
+            return self.judge_reference(case)
         name = case['cls']
         rng = random.Random('C03/%s/%s/%s/%s' % (self.seed, case['kind'], name, case['seed_index']))
         data = self.corpus[name][case['seed_index']]
@@ -241,7 +265,7 @@ class Check(core.CheckBase):
 
     def floors(self):
         return {'accepted': 2000, 'rejected': 2000, 'length_postconditions': 2000, 'frames_judged': 300,
-                'self_delimiting_evaluations': 1500, 'classes': 300}
+                'self_delimiting_evaluations': 1500, 'classes': 300, 'reference_encodings': 400}
 
     def finish(self):
         return {'classes': sorted(self.notes.get('classes', set())),
